@@ -123,7 +123,7 @@ Section C06.
         (forall c, request_of (fmt (weight_error c)) = c) ->
         exists o, run pol p_cfg p_run batch = Ok o
              /\ Permutation (map request_of (responses pol o))
-                            (flat_map (requests plugins request_of) batch).
+                            (flat_map (requests plugins fmt request_of) batch).
     Proof. exact (run_requests plugins weight weight_error single fmt sink_ok sink_total). Qed.
   End SinkWorks.
 
@@ -144,21 +144,22 @@ Theorem c06_one_response_per_expanded_query :
          (grid : @plugin query response) (later : list (@plugin query response))
          (is_object : query -> bool) (invariant_error : query -> response)
          (weight : query -> res (option N)) (weight_error single : query -> response)
-         (fmt : response -> response) (sink_ok : response -> bool),
+         (fmt : response -> response) (not_object_error : query -> response)
+         (sink_ok : response -> bool),
     (forall r, sink_ok r = true) ->
     forall pol p_cfg p_run batch,
       1 <= p_run ->
       (forall q, In q batch -> ~ K grid later is_object invariant_error q) ->
-      exists o, Batch.run (apply_input_plugins is_object invariant_error (grid :: later))
+      exists o, Batch.run (apply_input_plugins is_object invariant_error not_object_error (grid :: later))
                           weight weight_error single fmt sink_ok pol p_cfg p_run batch = Ok o
            /\ Permutation (responses pol o)
                           (flat_map (answer_ideal grid later is_object invariant_error
-                                                  weight weight_error single fmt) batch)
+                                                  weight weight_error single fmt not_object_error) batch)
            /\ length (responses pol o)
               = list_sum (map (expanded_ideal grid later is_object invariant_error) batch).
 Proof.
-  intros N query response grid later is_object invariant_error weight weight_error single fmt sink_ok Hs.
-  exact (run_perm_ideal grid later is_object invariant_error weight weight_error single fmt sink_ok Hs).
+  intros N query response grid later is_object invariant_error weight weight_error single fmt noe sink_ok Hs.
+  exact (run_perm_ideal grid later is_object invariant_error weight weight_error single fmt noe sink_ok Hs).
 Qed.
 (* ... inside K the whole query is answered by ONE error response, whatever the number of
    children and however many of them are good (faithful to the code; known finding) *)
@@ -167,13 +168,13 @@ Theorem c06_K_one_error_response :
          (grid : @plugin query response) (later : list (@plugin query response))
          (is_object : query -> bool) (invariant_error : query -> response)
          (weight : query -> res (option N)) (weight_error single : query -> response)
-         (fmt : response -> response) q,
+         (fmt : response -> response) (not_object_error : query -> response) q,
     K grid later is_object invariant_error q ->
-    exists e, Batch.answer (apply_input_plugins is_object invariant_error (grid :: later))
+    exists e, Batch.answer (apply_input_plugins is_object invariant_error not_object_error (grid :: later))
                            weight weight_error single fmt q = [fmt e].
 Proof.
-  intros N query response grid later is_object invariant_error weight weight_error single fmt.
-  exact (answer_inside_K grid later is_object invariant_error weight weight_error single fmt).
+  intros N query response grid later is_object invariant_error weight weight_error single fmt noe.
+  exact (answer_inside_K grid later is_object invariant_error weight weight_error single fmt noe).
 Qed.
 (* witness: query 0 expands into 10, 11, 12, a later plugin rejects 11: the batch [1; 0] returns
    two responses, the one of query 1 and one error; the answers to 10 and 12 are lost *)
@@ -256,6 +257,25 @@ Check @c06_count_eq :
     forall pol p_cfg p_run batch, 1 <= p_run ->
       exists o, Batch.run plugins weight weight_error single fmt sink_ok pol p_cfg p_run batch = Ok o
            /\ length (responses pol o) = list_sum (map (expanded plugins) batch).
+
+Check @c06_one_response_per_expanded_query :
+  forall (N : Num) (query response : Type)
+         (grid : @plugin query response) (later : list (@plugin query response))
+         (is_object : query -> bool) (invariant_error : query -> response)
+         (weight : query -> res (option N)) (weight_error single : query -> response)
+         (fmt : response -> response) (not_object_error : query -> response)
+         (sink_ok : response -> bool),
+    (forall r, sink_ok r = true) ->
+    forall pol p_cfg p_run batch,
+      1 <= p_run ->
+      (forall q, In q batch -> ~ K grid later is_object invariant_error q) ->
+      exists o, Batch.run (apply_input_plugins is_object invariant_error not_object_error (grid :: later))
+                          weight weight_error single fmt sink_ok pol p_cfg p_run batch = Ok o
+           /\ Permutation (responses pol o)
+                          (flat_map (answer_ideal grid later is_object invariant_error
+                                                  weight weight_error single fmt not_object_error) batch)
+           /\ length (responses pol o)
+              = list_sum (map (expanded_ideal grid later is_object invariant_error) batch).
 
 (* non-vacuity: a concrete batch of 5 queries (grid-search expansion into 3, an input-plugin
    failure, an unreadable weight, weights 5 / default / 1/2 / default / 2, exact rationals) run by
